@@ -40,8 +40,11 @@ MALFORMED = {
     "formula_terms": ["a: b: B", "a:", "a b", "a: x y", ":", "a: nope.dot", "a: b orog", " a: b"],
     "grid_mapping": ["crs:", "crs: x: y", "a b", "crs: x crs2:", "crs.1", "crs: x crs"],
     "cell_measures": ["area:", "area", "area: a b", "area cell_measure", ": x", "area: a volume:"],
-    "ancillary_variables": [" "],
-    "coordinates": [" "],
+}
+# templates using the data variable's own dimension names ({d0} first, {dl} last)
+MALFORMED_T = {
+    "cell_methods": ["{dl}: maximum within days", "{d0}: mean over years", "{d0}: {dl}: mean (interval: 1 m interval: 2 m interval: 3 m)",
+                     "{d0}: mean (interval: 1 hour", "{dl}: mean where"],
 }
 
 
@@ -102,6 +105,8 @@ def enumerate_faults(base, rng, tier):
             if attr in LIST_ATTRS or attr in MAP_ATTRS or attr in DIM_ATTRS:
                 for (i, name, role) in name_tokens(attr, value):
                     for kind in ("missing", "foreign", "removed"):
+                        if kind == "foreign" and attr == "grid_mapping" and (role == "key" or len(value.split()) == 1):
+                            continue  # a grid mapping variable may have any dimensions
                         if kind == "missing":
                             news = [MISSING]
                         elif kind == "foreign":
@@ -122,7 +127,9 @@ def enumerate_faults(base, rng, tier):
                                          "old": name, "new": new, "role": role, "value": nv, "orig": value}})
                             n += 1
             if attr in MALFORMED or attr == "cell_methods":
-                for s in MALFORMED.get(attr, []):
+                tmpl = [t.format(d0=(var["dims"] or ["x"])[0], dl=(var["dims"] or ["x"])[-1])
+                        for t in MALFORMED_T.get(attr, [])]
+                for s in MALFORMED.get(attr, []) + tmpl:
                     out.append({
                         "base": base["id"], "foreign": False, "edits": [[var["name"], attr, s]],
                         "meta": {"var": var["name"], "attr": attr, "kind": "malformed", "tok": None,
@@ -147,82 +154,201 @@ def strip_bounds(c):
     return d
 
 
+def strip_clim(c):
+    d = dict(c)
+    d.pop("clim", None)
+    return d
+
+
+def dangling_key(value):
+    toks = (value or "").split()
+    for i, t in enumerate(toks):
+        if t.endswith(":") and (i + 1 == len(toks) or toks[i + 1].endswith(":")):
+            return True
+    return False
+
+
+def effective_kind(meta):
+    """'removed' that leaves a key of a mapping attribute without value is a malformed string."""
+    if meta["kind"] == "removed" and meta["attr"] in MAP_ATTRS and dangling_key(meta["value"]):
+        return "malformed"
+    return meta["kind"]
+
+
+def has_formula_terms(bf, coord_ncvar):
+    return any(cr["terms"] and coord_ncvar in cr["coordinates"] for cr in bf["coordinate_references"])
+
+
+def is_bounds_var(bf, v):
+    return any(c["bounds"] and c["bounds"][0] == v for c in bf["constructs"])
+
+
+def construct_role(bc, meta, bf):
+    """How a construct of the unfaulted field relates to the fault:
+       'none'    must be returned unchanged,
+       'owner'   is the element named by the token: may be left out,
+       'bounds'  owns the token through its bounds: must be returned, its bounds may be left out,
+       'sibling' is named by the same attribute value as the owner (the reader drops these as well:
+                 classified separately, see known findings)."""
+    attr, v, old = meta["attr"], meta["var"], meta["old"]
+    kind = effective_kind(meta)
+    t = bc["type"]
+    own_field = bf["ncvar"] == v
+    if kind == "malformed":
+        if attr == "cell_measures" and own_field and t == "cell_measure":
+            return "owner"
+        if attr == "ancillary_variables" and own_field and t == "field_ancillary":
+            return "owner"
+        if attr == "formula_terms" and t == "domain_ancillary":
+            return "bounds" if is_bounds_var(bf, v) else "owner"
+        if attr == "cell_methods" and own_field:
+            return "clim"
+        return "none"
+    if attr in ("bounds", "climatology", "nodes"):
+        if bc["ncvar"] == v and t != "domain_ancillary":
+            return "bounds"
+        if t == "domain_ancillary" and has_formula_terms(bf, v):
+            return "bounds"
+        return "none"
+    if attr == "coordinates" and own_field:
+        if bc["ncvar"] == old and t in ("auxiliary_coordinate", "dimension_coordinate"):
+            return "owner"
+        if t == "domain_ancillary" and has_formula_terms(bf, old):
+            return "owner"
+        return "none"
+    if attr == "cell_measures" and own_field and t == "cell_measure":
+        return "owner" if bc["ncvar"] == old else "sibling"
+    if attr == "ancillary_variables" and own_field and t == "field_ancillary":
+        return "owner" if bc["ncvar"] == old else "sibling"
+    if attr == "formula_terms" and t == "domain_ancillary":
+        if is_bounds_var(bf, v):
+            return "bounds" if (bc["bounds"] and bc["bounds"][0] == old) else "none"
+        if has_formula_terms(bf, v):
+            return "owner" if bc["ncvar"] == old else "sibling"
+        return "none"
+    if attr in ("node_coordinates", "node_count", "part_node_count", "interior_ring"):
+        return "bounds" if t == "auxiliary_coordinate" else "none"
+    return "none"
+
+
+def cr_role(bcr, meta, bf):
+    attr, v, old = meta["attr"], meta["var"], meta["old"]
+    kind = effective_kind(meta)
+    if attr == "grid_mapping" and bf["ncvar"] == v:
+        if kind == "malformed":
+            return "owner"
+        toks = meta["orig"].split()
+        if len(toks) == 1:
+            return "owner"          # also the datum of a vertical reference comes from the grid mapping
+        # extended form: the mapping whose key precedes the token
+        key = None
+        for i, t in enumerate(toks):
+            if t.endswith(":"):
+                key = t[:-1]
+            if i == meta["tok"]:
+                break
+        if bcr["ncvar"] == key:
+            return "owner"
+        return "sibling" if bcr["ncvar"] is not None else "datum"
+    if attr == "formula_terms" and bcr["terms"] and (v in bcr["coordinates"] or is_bounds_var(bf, v)):
+        if is_bounds_var(bf, v):
+            return "none"
+        return "owner" if kind == "malformed" else "terms"
+    if attr == "coordinates" and bf["ncvar"] == v and old in bcr["coordinates"]:
+        return "owner" if bcr["terms"] else "coords"
+    return "none"
+
+
 def oracle(case, base, row):
-    """List of (signature, what, detail) property failures for one faulted read."""
+    """List of (signature, what) property failures for one faulted read."""
     meta = case["meta"]
     cls = attr_class(meta)
     fails = []
+    if "crash" in row:
+        return [(f"read-crashes:{cls}", f"the process reading the file was killed by signal {row['crash']}")]
     rd = row.get("read")
     if rd is None:
-        return [("harness:" + cls, "the faulted file could not be produced: " + str(row.get("error")), {})]
+        return [("harness:" + cls, "the faulted file could not be produced: " + str(row.get("error")))]
     if rd.get("open_fds"):
         fails.append(("file-left-open", f"{rd['open_fds']} descriptor(s) on the dataset still open after "
-                      f"cfdm.read {'raised ' + str(rd['exc']) if rd['exc'] else 'returned'}", {}))
+                      f"cfdm.read {'raised ' + str(rd['exc']) if rd['exc'] else 'returned'}"))
     if rd["exc"] is not None:
-        fails.append((f"read-raises:{cls}", f"cfdm.read raised {rd['exc']}: {rd['msg']} at {rd.get('where')}", {}))
+        fails.append((f"read-raises:{cls}", f"cfdm.read raised {rd['exc']}: {rd['msg']} at {rd.get('where')}"))
         return fails
     bfields = {f["ncvar"]: f for f in base["read"]["fields"]}
-    rfields = {f["ncvar"]: f for f in rd["fields"]}
-    old = meta["old"]
-    attr = meta["attr"]
-    v = meta["var"]
-    dim_fault = attr in DIM_ATTRS
+    rfields = {f["ncvar"]: f for f in rd["fields"] if not f.get("extra")}
+    old, attr, v = meta["old"], meta["attr"], meta["var"]
+    structural = attr in DIM_ATTRS or attr == "geometry"
     for n, bf in bfields.items():
         rf = rfields.get(n)
         if rf is None:
-            fails.append((f"field-lost:{cls}", f"no field for data variable {n} is returned", {}))
+            fails.append((f"field-lost:{cls}", f"no field for data variable {n} is returned"))
             continue
-        if dim_fault or attr == "geometry":
-            # the compression / geometry itself cannot be mapped: only presence and report are required
-            pass
-        else:
+        if not structural:
+            # (for a broken compression / geometry reference the data themselves cannot be mapped:
+            #  only presence of the field and the report are required)
             if rf["data"] != bf["data"] or rf["data_axes"] != bf["data_axes"]:
                 fails.append((f"field-data-changed:{cls}", f"data of {n}: {bf['data']} {bf['data_axes']} -> "
-                              f"{rf['data']} {rf['data_axes']}", {}))
+                              f"{rf['data']} {rf['data_axes']}"))
             rcons = {}
             for c in rf["constructs"]:
                 rcons.setdefault(cons_key(c), []).append(c)
-            base_has_owner = False
             for bc in bf["constructs"]:
-                affected, bounds_only = construct_affected(bc, meta, bf)
-                base_has_owner = base_has_owner or affected or bounds_only
-                if affected:
-                    continue
+                role = construct_role(bc, meta, bf)
                 cands = rcons.get(cons_key(bc), [])
-                if bounds_only:
+                if role == "owner":
+                    continue
+                if role == "bounds":
                     ok = any(strip_bounds(c) == strip_bounds(bc) for c in cands)
+                elif role == "clim":
+                    ok = any(strip_clim(c) == strip_clim(bc) for c in cands)
                 else:
                     ok = bc in cands
                 if not ok:
-                    fails.append((f"unaffected-construct-changed:{cls}:{bc['type']}",
+                    sig = "sibling-dropped" if role == "sibling" and not cands else "unaffected-construct-changed"
+                    fails.append((f"{sig}:{cls}:{bc['type']}",
                                   f"field {n}: construct {bc['type']}:{bc['ncvar']} (axes {bc['axes']}, bounds "
                                   f"{bc['bounds'] and bc['bounds'][0]}) is "
-                                  f"{'missing' if not cands else 'different: ' + json.dumps(cands[0])[:200]}", {}))
-            # coordinate references / cell methods: those not touching the token must survive
+                                  f"{'missing' if not cands else 'different: ' + json.dumps(cands[0])[:200]}"))
             for bcr in bf["coordinate_references"]:
-                if cr_affected(bcr, meta, bf):
+                role = cr_role(bcr, meta, bf)
+                if role == "owner":
                     continue
-                if not any(cr_same(bcr, rcr, meta) for rcr in rf["coordinate_references"]):
-                    fails.append((f"unaffected-construct-changed:{cls}:coordinate_reference",
+                found = False
+                for rcr in rf["coordinate_references"]:
+                    a, b = dict(bcr), dict(rcr)
+                    if role in ("datum", "sibling") or attr == "grid_mapping":
+                        a.pop("datum"), b.pop("datum")
+                    if role == "terms":
+                        a["terms"] = [t for t, _ in a["terms"]]
+                        b["terms"] = [t for t, _ in b["terms"]]
+                    if role == "coords":
+                        a["coordinates"] = [x for x in a["coordinates"] if x != old]
+                    found = found or a == b
+                if not found:
+                    gone = not any(rcr["ncvar"] == bcr["ncvar"] and bool(rcr["terms"]) == bool(bcr["terms"])
+                                   for rcr in rf["coordinate_references"])
+                    sig = "sibling-dropped" if role in ("sibling", "terms") and gone else "unaffected-construct-changed"
+                    fails.append((f"{sig}:{cls}:coordinate_reference",
                                   f"field {n}: coordinate reference {bcr} is missing or different: "
-                                  f"{rf['coordinate_references']}", {}))
-            if attr != "cell_methods" and not (attr == "coordinates" and
-                                               any(("scalar:" + str(old)) in " ".join(cm["axes"]) for cm in bf["cell_methods"])):
+                                  f"{rf['coordinate_references']}"))
+            scalar_named = any(("scalar:" + str(old) + "[") in " ".join(cm["axes"]) for cm in bf["cell_methods"])
+            if not (attr == "cell_methods" and bf["ncvar"] == v) and not (attr == "coordinates" and scalar_named):
                 if rf["cell_methods"] != bf["cell_methods"]:
                     fails.append((f"unaffected-construct-changed:{cls}:cell_method",
-                                  f"field {n}: cell methods {bf['cell_methods']} -> {rf['cell_methods']}", {}))
+                                  f"field {n}: cell methods {bf['cell_methods']} -> {rf['cell_methods']}"))
         for c in rf["constructs"]:
             for d in (c["data"], c["bounds"] and c["bounds"][1]):
                 if d and str(d[1]).startswith("ERR"):
                     fails.append((f"data-unreadable:{cls}", f"field {n}: data of {c['type']}:{c['ncvar']} "
-                                  f"cannot be read: {d[1]}", {}))
+                                  f"cannot be read: {d[1]}"))
         if rf["data"] and str(rf["data"][1]).startswith("ERR"):
-            fails.append((f"data-unreadable:{cls}", f"field {n}: field data cannot be read: {rf['data'][1]}", {}))
+            fails.append((f"data-unreadable:{cls}", f"field {n}: field data cannot be read: {rf['data'][1]}"))
         # the report
-        if report_expected(meta) and field_concerned(bf, meta):
+        if field_concerned(bf, meta) and report_expected(meta, rf):
             if not report_mentions(rf["report"], meta):
                 fails.append((f"not-reported:{cls}", f"field {n}: dataset_compliance() does not mention the broken "
-                              f"{v}:{attr} = {meta['value']!r}; report = {rf['report'][:4]}", {}))
+                              f"{v}:{attr} = {meta['value']!r}; report = {rf['report'][:4]}"))
     return fails
 
 
@@ -237,18 +363,15 @@ def field_concerned(bf, meta):
     return False
 
 
-def report_expected(meta):
-    k = meta["kind"]
+def report_expected(meta, rf):
+    k = effective_kind(meta)
     if k in ("missing", "foreign"):
         return True
     if k == "malformed":
+        if meta["attr"] == "cell_methods":
+            # a string the parser did map to cell methods is not a detected problem
+            return not rf["cell_methods"] and meta["value"].strip() != ""
         return meta["value"].strip() != ""
-    # removed: the rest is malformed only when a key lost its only value
-    if meta["attr"] in MAP_ATTRS and meta["value"]:
-        toks = meta["value"].split()
-        for i, t in enumerate(toks):
-            if t.endswith(":") and (i + 1 == len(toks) or toks[i + 1].endswith(":")):
-                return True
     return False
 
 
@@ -262,88 +385,20 @@ def report_mentions(report, meta):
                     return True
                 if k.split(":")[0] == meta["var"] and meta["new"] and meta["new"] in val.split():
                     return True
-        if meta["kind"] == "malformed" and key == meta["var"] and reason and (
-                meta["attr"].split("_")[0] in reason.lower().replace(" ", "_") or "incorrectly formatted" in reason):
+        if effective_kind(meta) == "malformed" and key == meta["var"] and reason and (
+                meta["attr"] in reason or "incorrectly formatted" in reason):
             return True
     return False
 
 
-def construct_affected(bc, meta, bf):
-    """(wholly affected, bounds only) for a construct of the base field under this fault."""
-    attr, v, old = meta["attr"], meta["var"], meta["old"]
-    if meta["kind"] == "malformed":
-        if attr == "cell_measures":
-            return bc["type"] == "cell_measure", False
-        if attr == "ancillary_variables":
-            return bc["type"] == "field_ancillary", False
-        if attr == "coordinates":
-            return False, False
-        if attr == "formula_terms":
-            return bc["type"] == "domain_ancillary", False
-        return False, False
-    if attr in ("bounds", "climatology", "nodes"):
-        if bc["ncvar"] == v and bc["type"] != "domain_ancillary":
-            return False, True
-        if bc["type"] == "domain_ancillary" and has_formula_terms(bf, v):
-            return False, True
-        return False, False
-    if attr == "coordinates":
-        if bc["ncvar"] == old and bc["type"] in ("auxiliary_coordinate", "dimension_coordinate") and bf["ncvar"] == v:
-            return True, False
-        if bc["type"] == "domain_ancillary" and has_formula_terms(bf, old):
-            return True, False
-        return False, False
-    if attr == "cell_measures":
-        return (bc["type"] == "cell_measure" and bc["ncvar"] == old and bf["ncvar"] == v), False
-    if attr == "ancillary_variables":
-        return (bc["type"] == "field_ancillary" and bc["ncvar"] == old and bf["ncvar"] == v), False
-    if attr == "formula_terms":
-        if bc["type"] == "domain_ancillary":
-            if bc["ncvar"] == old:
-                return True, False
-            if bc["bounds"] and bc["bounds"][0] == old:
-                return False, True
-            # the bounds variable's formula_terms: the bounds of the same term's ancillary
-            return False, is_bounds_var(bf, v)
-        return False, False
-    if attr in ("node_coordinates", "node_count", "part_node_count", "interior_ring"):
-        return False, bc["type"] == "auxiliary_coordinate"
-    return False, False
-
-
-def has_formula_terms(bf, coord_ncvar):
-    return any(cr["terms"] and coord_ncvar in cr["coordinates"] for cr in bf["coordinate_references"])
-
-
-def is_bounds_var(bf, v):
-    return any(c["bounds"] and c["bounds"][0] == v for c in bf["constructs"])
-
-
-def cr_affected(bcr, meta, bf):
-    attr, v, old = meta["attr"], meta["var"], meta["old"]
-    if attr == "grid_mapping":
-        return bcr["ncvar"] is not None or True  # the datum of a vertical reference comes from the grid mapping
-    if attr == "formula_terms":
-        return bool(bcr["terms"])
-    if attr == "coordinates":
-        return old in bcr["coordinates"]
-    if attr in ("bounds", "climatology"):
-        return bool(bcr["terms"]) and v in bcr["coordinates"]
-    return False
-
-
-def cr_same(a, b, meta):
-    return a == b
-
-
 # ---------------------------------------------------------------- run
-def run_cases(chk, cases, nworkers=12):
+def run_cases(chk, cases, bases, nworkers=12):
     for i, c in enumerate(cases):
         c["cid"] = f"c{i:05d}"
     shards = [cases[i::nworkers] for i in range(nworkers)]
     payloads = [{"mode": "faults", "scratch": chk.scratch,
                  "cases": [{"cid": c["cid"], "base": c["base"], "edits": c["edits"], "foreign": c["foreign"],
-                            "want_raw": True} for c in sh]} for sh in shards if sh]
+                            "base_fields": [f["ncvar"] for f in bases[c["base"]]["read"]["fields"]]} for c in sh]} for sh in shards if sh]
     res = lib.run_workers_parallel("drive/c13.py", payloads, timeout=1500)
     rows = {}
     crashed = []
@@ -369,6 +424,129 @@ def make_bases(chk):
         chk.fail("correspondence", "worker-crash", f"bases worker rc={rc}: {err[-500:]}",
                  {"correspondence": "drive/c13.py"})
     return bases
+
+
+# ---------------------------------------------------------------- model tie
+MODEL_ATTRS = ("bounds", "climatology", "coordinates", "cell_measures", "ancillary_variables",
+               "grid_mapping", "formula_terms", "cell_methods", "dimensions")
+OUTSIDE_ATTRS = ("compress", "sample_dimension", "instance_dimension", "geometry", "nodes", "node_coordinates",
+                 "mesh", "location_index_set", "coordinate_interpolation", "topology_dimension", "bounds_tie_points")
+CTYPE = {"dimension_coordinate": "CDim", "auxiliary_coordinate": "CAux", "domain_ancillary": "CDomAnc",
+         "cell_measure": "CMeasure", "field_ancillary": "CFieldAnc"}
+WHAT = {"Bounds variable": "WBounds", "Auxiliary/scalar coordinate variable": "WAux",
+        "Cell measures variable": "WMeasure", "cell_measures attribute": "WMeasureAttr",
+        "Ancillary variable": "WAnc", "ancillary_variables attribute": "WAncAttr",
+        "Formula terms variable": "WFt", "formula_terms attribute": "WFtAttr",
+        "Bounds formula terms variable": "WBFt", "Bounds formula_terms attribute": "WBFtAttr",
+        "Grid mapping variable": "WGm", "grid_mapping attribute": "WGmAttr",
+        "Grid mapping coordinate variable": "WGmCoord", "Cell method interval": "WCmInterval",
+        "cell_methods attribute": "WCmAttr"}
+REASON = {"is not in file": "RMissing", "spans incorrect dimensions": "RDims", "is incorrectly formatted": "RFormat",
+          "is not in file nor referenced by the external_variables global attribute": "RMissingExt",
+          "has incompatible terms": "RIncompat", "that spans the vertical dimension has no bounds": "RNoBounds",
+          "that does not span the vertical dimension is inconsistent with the formula_terms of the parametric "
+          "coordinate variable": "RInconsistent", "is not used by data variable": "RNotUsed"}
+ERRK = {"KeyError": "KeyErr", "IndexError": "IndexErr", "ValueError": "ValueErr", "TypeError": "TypeErr"}
+
+
+def printable(s):
+    return isinstance(s, str) and all(32 <= ord(c) < 127 for c in s)
+
+
+def apply_edits(raw, case):
+    """The raw content of the faulted file: the base content with the edits applied (pure)."""
+    vs = []
+    for v in raw["vars"]:
+        d = dict(v)
+        d["attrs"] = dict(v["attrs"])
+        vs.append(d)
+    gattrs = dict(raw["gattrs"])
+    for var, attr, new in case["edits"]:
+        tgt = gattrs if var is None else next(v for v in vs if v["name"] == var)["attrs"]
+        if new is None:
+            tgt.pop(attr, None)
+        else:
+            tgt[attr] = new
+    if case.get("foreign"):
+        vs.append({"name": "zz_foreign1", "dims": ["zz_fdim"], "char": False, "string": False,
+                   "attrs": {"long_name": "foreign 1-d"}})
+        vs.append({"name": "zz_foreign2", "dims": ["zz_fdim", "zz_fdim2"], "char": False, "string": False,
+                   "attrs": {"long_name": "foreign 2-d"}})
+    return {"vars": vs, "gattrs": gattrs}
+
+
+def in_model_fragment(raw):
+    if not str(raw["gattrs"].get("Conventions", "")).startswith("CF-1.11"):
+        return False
+    for v in raw["vars"]:
+        for a, val in v["attrs"].items():
+            if a in OUTSIDE_ATTRS:
+                return False
+            if a in MODEL_ATTRS and not printable(val):
+                return False
+        if not printable(v["name"]):
+            return False
+    return True
+
+
+def g_ads(raw):
+    vs = []
+    for v in raw["vars"]:
+        attrs = [(a, val) for a, val in v["attrs"].items() if a in MODEL_ATTRS and val is not None]
+        vs.append(f"mkVar {gstr(v['name'])} {glist(v['dims'], gstr)} {gbool(v['char'])} {gbool(v['string'])} "
+                  f"{glist(attrs, lambda kv: f'({gstr(kv[0])}, {gstr(kv[1])})')}")
+    ext = str(raw["gattrs"].get("external_variables", "")).split()
+    return f"(mkAds [{'; '.join(vs)}] {glist(ext, gstr)})"
+
+
+def split_reason(reason):
+    """'Bounds variable is not in file' -> ('WBounds', 'RMissing')"""
+    if not reason:
+        return "WOther", "ROtherReason"
+    best = None
+    for w in WHAT:
+        if reason.startswith(w + " ") and (best is None or len(w) > len(best)):
+            best = w
+    if best is None:
+        return "WOther", "ROtherReason"
+    return WHAT[best], REASON.get(reason[len(best) + 1:], "ROtherReason")
+
+
+def g_field(f):
+    cons = []
+    for c in f["constructs"]:
+        if c["type"] not in CTYPE:
+            return None
+        if c["ncvar"] is None:
+            return None
+        cons.append(f"({CTYPE[c['type']]}, {gstr(c['ncvar'])}, {gopt(c['bounds'] and c['bounds'][0], gstr)})")
+    crefs = []
+    for r in f["coordinate_references"]:
+        terms = glist(r["terms"], lambda t: f"({gstr(t[0])}, {gopt(t[1], gstr)})")
+        crefs.append(f"({gopt(r['ncvar'], gstr)}, {glist(r['coordinates'], gstr)}, {terms})")
+    meths = [f"({len(m['axes'])}%nat, {gopt(m['method'], gstr)})" for m in f["cell_methods"]]
+    rep = []
+    for fv, key, reason, code, att in f["report"]:
+        if not printable(key):
+            continue
+        w, r = split_reason(reason)
+        rep.append(f"({gstr(key)}, {w}, {r})")
+    return f"({gstr(f['ncvar'])}, [{'; '.join(cons)}], [{'; '.join(crefs)}], [{'; '.join(meths)}], [{'; '.join(rep)}])"
+
+
+def g_case(raw, rd):
+    """Gallina literal of one case, or None when the observation cannot be printed."""
+    if rd["exc"] is not None:
+        if rd["exc"].startswith("OBS:"):
+            return None
+        return f"({g_ads(raw)}, Some {ERRK.get(rd['exc'], 'OtherErr')}, [])"
+    fs = []
+    for f in rd["fields"]:
+        g = g_field(f)
+        if g is None:
+            return None
+        fs.append(g)
+    return f"({g_ads(raw)}, None, [{'; '.join(fs)}])"
 
 
 def run(chk, model_ok):
